@@ -303,6 +303,7 @@ const EXOTIC_TYPES: &[&str] = &[
     "Channel<Result<(u8, String), String>>", "tauri::ipc::Channel<&'a [u8]>", "dyn Any", "Wrapper<{ N + 1 }>", "Array<T, 3>", "Self", "&Self", "_", "Option<impl Trait>",
     "Result<(String, Vec<Item>), ApiError<Code>>", "HashMap<(u8, Vec<u8>), Wrapper<Inner>>", "Result<HashMap<String, Vec<u8>>, Box<dyn Error<Code>>>", "Paginated<Vec<(u8, Item<T>)>>",
     "HashMap<Währung, f64>", "(Schlüssel, u8)", "Result<設定, Größe>", "BTreeMap<Ünit, Vec<Ünit>>",
+    "Cow<str>", "Cow<'static, [u8]>", "Cow<>", "Box<>", "Arc<>", "Rc<str>", "Box<str>", "Arc<Mutex<>>", "Cow<'a>", "std::borrow::Cow<str>",
     "HashSet<>", "Vec<>>", "BTreeMap<String>", "Result<>", "HashMap<,>", "Option< String >", "Vec <u8>", "Result<String , >",
 ];
 
